@@ -528,6 +528,33 @@ theorem condCopy_spec {h : Heap} (ok : HeapOK h) (flt : F) (kf : Known h flt) (b
       congr 1
       simp [viewOf, View.gate, e1 ρ]
 
+/-- renumbering the copies (fresh `Binding` identities) changes nothing a lookup or the matching
+    loop can see -/
+theorem renumber_view (ρ : Nat → Bool) (nb : Nat) (l : List Binding) :
+    (renumber nb l).map (viewOf ρ) = l.map (viewOf ρ) := by
+  induction l generalizing nb with
+  | nil => rfl
+  | cons b bs ih => simp only [renumber, List.map_cons, ih]; rfl
+
+theorem renumber_BsOK {h : Heap} {l : List Binding} (ok : BsOK h l) (nb : Nat) :
+    BsOK h (renumber nb l) := by
+  induction l generalizing nb with
+  | nil => exact fun b hb => nomatch hb
+  | cons b bs ih =>
+    intro x hx
+    simp only [renumber, List.mem_cons] at hx
+    rcases hx with rfl | hx
+    · exact ok b (List.mem_cons_self ..)
+    · exact ih (fun y hy => ok y (List.mem_cons_of_mem _ hy)) (nb + 1) x hx
+
+/-- the allocation counter of `Binding` objects is not mentioned by the invariant -/
+theorem Inv.setNextB {w : W} (inv : Inv w) (n : Nat) : Inv { w with nextB := n } :=
+  ⟨inv.heap, inv.ent⟩
+
+theorem Frame.setNextB {w w' : W} {b : Nat} (f : Frame w w' b) (n : Nat) :
+    Frame w { w' with nextB := n } b :=
+  ⟨f.env, f.skel, f.heap, f.above⟩
+
 theorem Frame.len {w w' : W} {b : Nat} (f : Frame w w' b) : w'.regs.length = w.regs.length := by
   have h1 := skelOf_isSome w'
   have h2 := skelOf_isSome w
@@ -687,23 +714,28 @@ theorem updateWith_cond {w : W} {i c : Nat} {flt : F} {b2 : KB} {last : Ver} (in
     have sk2 : skelOf (p.bindings (p.version w c).1 c).1 = skelOf w := f2.skel.trans f1.skel
     have hnew : EntOK (condCopy (p.bindings (p.version w c).1 c).1.heap flt (p.bindings (p.version w c).1 c).2).1
         (skelOf (p.bindings (p.version w c).1 c).1) i
-        (.cond c flt { bs := (condCopy (p.bindings (p.version w c).1 c).1.heap flt
-          (p.bindings (p.version w c).1 c).2).2 } (p.version w c).2) := by
-      refine ⟨hci, KBOK.fresh _ _, c3, c2 _ kflt2, ?_, ?_⟩
+        (.cond c flt { bs := (renumber (p.bindings (p.version w c).1 c).1.nextB
+          (condCopy (p.bindings (p.version w c).1 c).1.heap flt
+          (p.bindings (p.version w c).1 c).2).2) } (p.version w c).2) := by
+      refine ⟨hci, KBOK.fresh _ _, renumber_BsOK c3 _, c2 _ kflt2, ?_, ?_⟩
       · intro ρ content hd
         rw [sk2, v1, dcur_cond hsk hci, dcur_pureVer ρ _ inv.wfsk c
           ((skelOf_isSome w c).mpr (by omega))] at hd
         simp at hd
-        rw [← hd, c4 ρ, v2 ρ, f1.skel]
+        show (renumber _ _).map (viewOf ρ) = content
+        rw [renumber_view, ← hd, c4 ρ, v2 ρ, f1.skel]
       · right
         rw [sk2, v1, Bnd_cond hsk hci]
         exact Bnd_pureVer _ inv.wfsk c ((skelOf_isSome w c).mpr (by omega))
     obtain ⟨i3, f3⟩ := i2.setEntry _ c1 c2 i (.cond c flt b2 last)
-      (.cond c flt { bs := (condCopy (p.bindings (p.version w c).1 c).1.heap flt
-          (p.bindings (p.version w c).1 c).2).2 } (p.version w c).2) he2 rfl hnew
-    refine ⟨i3, (f1.trans f2 (by omega) (by omega)).trans f3 (Nat.le_refl _) (Nat.le_refl _), ?_⟩
-    refine ⟨{ bs := (condCopy (p.bindings (p.version w c).1 c).1.heap flt
-          (p.bindings (p.version w c).1 c).2).2 }, ?_⟩
+      (.cond c flt { bs := (renumber (p.bindings (p.version w c).1 c).1.nextB
+          (condCopy (p.bindings (p.version w c).1 c).1.heap flt
+          (p.bindings (p.version w c).1 c).2).2) } (p.version w c).2) he2 rfl hnew
+    refine ⟨i3.setNextB _, ((f1.trans f2 (by omega) (by omega)).trans f3 (Nat.le_refl _)
+      (Nat.le_refl _)).setNextB _, ?_⟩
+    refine ⟨{ bs := (renumber (p.bindings (p.version w c).1 c).1.nextB
+          (condCopy (p.bindings (p.version w c).1 c).1.heap flt
+          (p.bindings (p.version w c).1 c).2).2) }, ?_⟩
     have hl2 : i < (p.bindings (p.version w c).1 c).1.regs.length := by rw [f2.len, f1.len]; exact hlt
     rw [hpv, ← v1]
     exact setReg_get_eq { (p.bindings (p.version w c).1 c).1 with heap := _ } i _ hl2
